@@ -62,13 +62,12 @@ static void run_actor(int idx);
 // an actor by program index: the creator may have died before recording the handle, so fall back on a lookup by name
 static sg4::ActorPtr actor_of(int idx)
 {
-  if (aptr[idx] != nullptr)
-    return aptr[idx];
+  // the live actor of that name first (a restarted incarnation replaces the previous one), else the last handle recorded
   std::string name = "a" + std::to_string(idx + 1);
   for (auto const& a : sg4::Engine::get_instance()->get_all_actors())
     if (a->get_name() == name)
       return a;
-  return nullptr;
+  return aptr[idx];
 }
 
 static long ticks_of(double t)
@@ -124,6 +123,7 @@ static void run_actor(int idx)
   const ActorSpec& spec = actors[idx];
   long me               = idx + 1; // actors are identified by their program index; "born" gives the pid mapping
   simgrid_verif_log("{\"e\":\"born\",\"a\":%ld,\"pid\":%ld}\n", me, static_cast<long>(sg4::this_actor::get_pid()));
+  aptr[idx] = sg4::Actor::self(); // (a restarted incarnation replaces the handle of the previous one)
   std::vector<sg4::ActivityPtr> handles; // asynchronous activities of this actor, by creation order
   std::vector<Payload**> slots;          // reception buffer of each handle (nullptr for sends and execs)
   auto mkpay = [&](size_t k, long size) { return new Payload{me, static_cast<long>(k), size, me * 1000 + static_cast<long>(k)}; };
@@ -181,6 +181,8 @@ static void run_actor(int idx)
           t->kill();
       } else if (n == "killall")
         sg4::Actor::kill_all();
+      else if (n == "autorestart")
+        sg4::Actor::self()->set_auto_restart(true);
       else if (n == "suspend") {
         if (auto t = actor_of(op.a[0] - 1); t != nullptr)
           t->suspend();
